@@ -24,7 +24,7 @@ PROPS = {
     },
     "C03": {
         "module": "Cdecao.Props.C03",
-        "theorems": ["Props.C03", "Props.C03_bounded_of_spec", "Props.C03_caobab"],
+        "theorems": ["Props.C03", "Props.C03_bounded_of_spec", "Props.C03_caobab", "Props.C03_F11_not_bounded", "Props.F11_root", "Props.F11_enforce2", "Props.F11_enforce2_cancel0"],
         "streams": ["engine", "solve", "solve-rooms", "engine-exhaustive"],
     },
     "C04": {
@@ -129,7 +129,7 @@ LEVELS = {
             "note": _NODE + " " + _ENG + " Partial with respect to the full property: inside the F1 class the property is false of the code (known finding), the theorem covers the complement."},
     "C17": {"text": "Theorem Props.C17_rooms_le_opt: with any room list the reported score is the documented score of an assignment satisfying the hard constraints, hence at most any upper bound of the room-free optimum (all T, schedules). Props.C17_rooms_nonbinding: with a room list that cannot bind (every room among the I.C largest at least as large as any course can become, R.eff c n for n <= num_max + #instructors — no monotonicity of the float formula needed) every node result equals the one without room list; C17_rooms_nonbinding_search lifts it to identical reachable engine configurations for every thread count and schedule. Paired real runs (identical verdict, score and node-by-node identical search trees) and the brute-force optimum tie it to the code.",
             "note": _NODE + " The effective size is the documented formula as evaluated in f32 (the paired-run generator includes the f32/f64 corner)."},
-    "C03": {"text": "Theorem Props.C03: two finished runs of the engine model on a bounded tree agree on found/score for all thread counts and schedules. Props.C03_caobab discharges the premise for the caobab node solver (valid instances outside the F1 class, with or without rooms, any float behaviour); inside the F1 class the property is FALSE of the code (known finding F11: a child's relaxation can exceed its parent's, so the score depends on the schedule; witness replayed on every run); a schedule-dependent verdict is the known finding only if the instance is in the class AND the model's own tree is not Bounded; anything else is a violation.",
+    "C03": {"text": "Theorem Props.C03: two finished runs of the engine model on a bounded tree agree on found/score for all thread counts and schedules. Props.C03_caobab discharges the premise for the caobab node solver (valid instances outside the F1 class, with or without rooms, any float behaviour); inside the F1 class the property is FALSE of the code (known finding F11: a child's relaxation can exceed its parent's, so the score depends on the schedule; Props.C03_F11_not_bounded proves `¬ Bounded` of the model on a 3-course witness with the node results evaluated by the kernel, and the witness is replayed on the real code under seeded schedules on every run); a schedule-dependent verdict is the known finding only if the instance is in the class AND the model's own tree is not Bounded; anything else is a violation.",
             "note": _ENG + " Partial only inside the F1 class (instructors with own choices of non-fixed courses), where `Bounded` is not proved."},
     "C04": {"text": "Theorems Props.C04_no_deadlock, C04_done_means_finished, C04_stats_step, C04_bounded_work C04_exactly_once_at_done (ghost history: at AllDone the multiset of generated subproblems = solved ⊎ bounded, none twice, none lost, and the counters are the lengths), C04_run_bound_init (a run from init with at most s wake events has at most W root + 3T + 3(T² + s) non-wake events) and C04_stats_at_done (at AllDone: executed = no-solution + infeasible + feasible and generated = executed + bound, for every reachable run of the product system), C04_done_absorbing, over the engine model, all T >= 1 and schedules incl. spurious wake-ups; every real run under the shim is replayed through the model with all six counters compared, and the shim's deadlock detector and step budget watch the real code.",
             "note": _ENG},
